@@ -5,11 +5,17 @@ use crate::mem::{get_executable_memory_slice, memory_read_byte, memory_write_byt
 
 pub fn run_code_block(registers: &mut Registers, mem: *mut MemoryAreas) -> u8 {
   let mut status = cpu::STATUS_NORMAL;
+  let starts_in_fixed_bank = registers.ip < 0x4000;
   loop {
     match run_next_op(registers, mem) {
       Some((op_status, should_break)) => {
         status = op_status;
         if should_break {
+          break;
+        }
+        if starts_in_fixed_bank && registers.ip >= 0x4000 {
+          // same block boundary as the translator: a block never runs from
+          // the fixed bank on into the switchable bank
           break;
         }
       },
